@@ -19,24 +19,45 @@
 //
 // Obs line: a1=<n>:<p> r=ok a2=<n>:<c>:<p> i=ok a3=<c> f=ok   (stops at the first err:<class>)
 // Every message travels through Marshal -> (tamper) -> Unmarshal like on the wire.
+//
+// Second op kind: the handshake as run by pkg/net/libp2p/authenticated_connection.go over a net.Pipe:
+//
+//	conn <R|I> <p1> <p2> <t1> <t2> <t3>
+//
+// R: the REAL responder (newAuthenticatedInboundConnection, protocol p2) against a harness initiator
+// (protocol p1) that signs and sends what the op line says; I: the REAL initiator
+// (newAuthenticatedOutboundConnection, protocol p1) against a harness responder (protocol p2).
+// The nonces are random here, so alterations are relative: p=<proto>, nx=<u64 xor mask on the nonce>,
+// cx=<byte pos>.<xor mask on the challenge>.  R uses t1 and t3 (t2 must be "-"), I uses t2.
+// Obs: init=<ok|err:class> resp=<ok|err:class>  (err:io = the other side hung up)
 package main
 
 import (
+	"bufio"
 	crand "crypto/rand"
 	"encoding/binary"
 	"encoding/hex"
 	"errors"
 	"fmt"
 	"io"
+	"net"
 	"strconv"
 	"strings"
+	"sync"
+	"time"
 
+	libp2pcrypto "github.com/libp2p/go-libp2p/core/crypto"
+	"github.com/libp2p/go-libp2p/core/peer"
+	protodelim "google.golang.org/protobuf/dev/encoding/protodelim"
 	"google.golang.org/protobuf/proto"
 
 	"keepverif/harness/hx"
 
+	"github.com/keep-network/keep-core/pkg/firewall"
 	"github.com/keep-network/keep-core/pkg/net/gen/pb"
+	"github.com/keep-network/keep-core/pkg/net/libp2p"
 	"github.com/keep-network/keep-core/pkg/net/security/handshake"
+	"github.com/keep-network/keep-core/pkg/operator"
 )
 
 var protos = []string{"keep", "keep2", "tbtc", "_", "Keep", "keeq", "keep/1.0.0",
@@ -170,6 +191,10 @@ func gen(r *hx.Rng, n int, tier string) []string {
 		n -= len(ops)
 	}
 	for i := 0; i < n; i++ {
+		if r.Chance(1, 10) {
+			ops = append(ops, genConn(r))
+			continue
+		}
 		n1, n2 := nonce(r), nonce(r)
 		if r.Chance(1, 15) {
 			n2 = n1
@@ -296,6 +321,56 @@ func gen(r *hx.Rng, n int, tier string) []string {
 	return ops
 }
 
+func genConn(r *hx.Rng) string {
+	p1 := hx.Pick(r, protos)
+	p2 := p1
+	if r.Chance(1, 6) {
+		p2 = hx.Pick(r, protos)
+	}
+	cx := func() string { return fmt.Sprintf("cx=%d.%d", r.Intn(32), r.Range(1, 255)) }
+	nx := func() string { return fmt.Sprintf("nx=%d", uint64(r.Range(1, 255))<<(8*uint(r.Intn(8)))) }
+	pp := func(orig string) string {
+		for {
+			if p := hx.Pick(r, protos); p != orig {
+				return "p=" + p
+			}
+		}
+	}
+	if r.Bool() {
+		t1, t3 := "-", "-"
+		switch r.Intn(8) {
+		case 0, 1:
+		case 2, 3, 4:
+			t3 = cx() // correctly signed act 3 with a wrong challenge
+		case 5:
+			t1 = nx()
+		case 6:
+			t1 = pp(p1)
+			if p1 != p2 {
+				t1 = "p=" + p2 // act 1 rewritten to the responder's protocol: the initiator must refuse act 2
+			}
+		default:
+			t1, t3 = nx(), cx()
+		}
+		return fmt.Sprintf("conn R %s %s %s - %s", p1, p2, t1, t3)
+	}
+	t2 := "-"
+	switch r.Intn(8) {
+	case 0, 1:
+	case 2, 3:
+		t2 = cx()
+	case 4:
+		t2 = nx()
+	case 5:
+		t2 = pp(p2)
+	case 6:
+		t2 = "cx=0.0" // rewritten with the same value
+	default:
+		t2 = nx() + "," + cx()
+	}
+	return fmt.Sprintf("conn I %s %s - %s -", p1, p2, t2)
+}
+
 // scripted replacement of crypto/rand.Reader
 type scripted struct{ buf []byte }
 
@@ -412,6 +487,9 @@ func validTable(s string) bool {
 
 func exec(op string) (string, string) {
 	f := strings.Split(op, " ")
+	if len(f) == 7 && f[0] == "conn" {
+		return execConn(f)
+	}
 	if len(f) != 9 || f[0] != "hs" {
 		return "bad-op", "bad"
 	}
@@ -559,6 +637,274 @@ func exec(op string) (string, string) {
 	}
 	obs = append(obs, "f=ok")
 	return done("ok")
+}
+
+// ---- connection level (authenticated_connection.go) ---------------------------
+
+type relTamper struct {
+	p      *string
+	nx     uint64
+	cxPos  int
+	cxMask byte
+	hasCx  bool
+	used   bool
+}
+
+func parseRel(s string, allow string) (*relTamper, bool) {
+	t := &relTamper{}
+	for _, it := range hx.SplitList(s) {
+		kv := strings.SplitN(it, "=", 2)
+		if len(kv) != 2 || kv[1] == "" || !strings.Contains(allow, kv[0]+";") {
+			return nil, false
+		}
+		t.used = true
+		switch kv[0] {
+		case "p":
+			if t.p != nil {
+				return nil, false
+			}
+			x := pstr(kv[1])
+			t.p = &x
+		case "nx":
+			x, err := strconv.ParseUint(kv[1], 10, 64)
+			if err != nil || t.nx != 0 {
+				return nil, false
+			}
+			t.nx = x
+		case "cx":
+			pm := strings.Split(kv[1], ".")
+			if len(pm) != 2 || t.hasCx {
+				return nil, false
+			}
+			pos, e1 := strconv.ParseUint(pm[0], 10, 8)
+			mask, e2 := strconv.ParseUint(pm[1], 10, 8)
+			if e1 != nil || e2 != nil || pos > 31 {
+				return nil, false
+			}
+			t.cxPos, t.cxMask, t.hasCx = int(pos), byte(mask), true
+		}
+	}
+	return t, true
+}
+
+type connPeer struct {
+	priv libp2pcrypto.PrivKey
+	id   peer.ID
+}
+
+var (
+	peersOnce sync.Once
+	connPeers [2]connPeer
+)
+
+func initPeers() {
+	for i := range connPeers {
+		opPriv, _, err := operator.GenerateKeyPair(libp2p.DefaultCurve)
+		if err != nil {
+			panic(err)
+		}
+		priv, _, err := libp2p.VerifC20NetworkKeyPair(opPriv)
+		if err != nil {
+			panic(err)
+		}
+		id, err := peer.IDFromPrivateKey(priv)
+		if err != nil {
+			panic(err)
+		}
+		connPeers[i] = connPeer{priv, id}
+	}
+}
+
+func sendEnvelope(c net.Conn, who connPeer, wire []byte) error {
+	sig, err := who.priv.Sign(wire)
+	if err != nil {
+		return err
+	}
+	_, err = (&protodelim.MarshalOptions{}).MarshalTo(c, &pb.HandshakeEnvelope{
+		Message: wire, PeerID: []byte(who.id), Signature: sig,
+	})
+	return err
+}
+
+func recvEnvelope(rd *bufio.Reader) ([]byte, error) {
+	var env pb.HandshakeEnvelope
+	if err := (&protodelim.UnmarshalOptions{MaxSize: 1024}).UnmarshalFrom(rd, &env); err != nil {
+		return nil, err
+	}
+	return env.Message, nil
+}
+
+func connClass(err error) string {
+	if err == nil {
+		return "ok"
+	}
+	s := err.Error()
+	switch {
+	case strings.Contains(s, "unsupported protocol"):
+		return "err:protocol"
+	case strings.Contains(s, "unexpected responder's challenge"), strings.Contains(s, "unexpected initiator's challenge"):
+		return "err:challenge"
+	case strings.Contains(s, "invalid challenge length"), strings.Contains(s, "invalid nonce length"):
+		return "err:wire"
+	case strings.Contains(s, "EOF"), strings.Contains(s, "closed pipe"):
+		return "err:io"
+	}
+	return "err:other"
+}
+
+func xorNonce(b []byte, mask uint64) []byte {
+	if len(b) != 8 {
+		return b
+	}
+	return le(binary.LittleEndian.Uint64(b) ^ mask)
+}
+
+func execConn(f []string) (string, string) {
+	role := f[1]
+	if (role != "R" && role != "I") || f[2] == "" || f[3] == "" {
+		return "bad-op", "bad"
+	}
+	t1, ok1 := parseRel(f[4], "p;nx;")
+	t2, ok2 := parseRel(f[5], "p;nx;cx;")
+	t3, ok3 := parseRel(f[6], "cx;")
+	if !ok1 || !ok2 || !ok3 || (role == "R" && t2.used) || (role == "I" && (t1.used || t3.used)) {
+		return "bad-op", "bad"
+	}
+	p1, p2 := pstr(f[2]), pstr(f[3])
+	peersOnce.Do(initPeers)
+	ini, rsp := connPeers[0], connPeers[1]
+	a, b := net.Pipe() // a: initiator's end, b: responder's end
+	defer a.Close()
+	defer b.Close()
+	real := make(chan error, 1)
+	var initRes, respRes string
+
+	if role == "R" {
+		go func() { real <- libp2p.VerifC20InboundHandshake(b, rsp.id, rsp.priv, firewall.Disabled, p2) }()
+		initRes = connClass(func() error {
+			rd := bufio.NewReader(a)
+			ia1, err := handshake.InitiateHandshake(p1)
+			if err != nil {
+				return err
+			}
+			w1, _ := ia1.Message().Marshal()
+			var m1 pb.Act1Message
+			if err := proto.Unmarshal(w1, &m1); err != nil {
+				return err
+			}
+			m1.Nonce = xorNonce(m1.Nonce, t1.nx)
+			if t1.p != nil {
+				m1.Protocol = *t1.p
+			}
+			w1, _ = proto.Marshal(&m1)
+			if err := sendEnvelope(a, ini, w1); err != nil {
+				return err
+			}
+			ia2 := ia1.Next()
+			w2, err := recvEnvelope(rd)
+			if err != nil {
+				return err
+			}
+			act2 := &handshake.Act2Message{}
+			if err := act2.Unmarshal(w2); err != nil {
+				return err
+			}
+			ia3, err := ia2.Next(act2)
+			if err != nil {
+				return err
+			}
+			w3, _ := ia3.Message().Marshal()
+			var m3 pb.Act3Message
+			if err := proto.Unmarshal(w3, &m3); err != nil {
+				return err
+			}
+			if t3.hasCx {
+				m3.Challenge[t3.cxPos] ^= t3.cxMask
+			}
+			w3, _ = proto.Marshal(&m3)
+			return sendEnvelope(a, ini, w3)
+		}())
+		if initRes != "ok" {
+			a.Close() // the initiator hangs up
+		}
+		select {
+		case err := <-real:
+			respRes = connClass(err)
+		case <-time.After(10 * time.Second):
+			respRes = "hang"
+		}
+	} else {
+		go func() {
+			real <- libp2p.VerifC20OutboundHandshake(a, ini.id, ini.priv, rsp.id, firewall.Disabled, p1)
+		}()
+		respRes = connClass(func() error {
+			rd := bufio.NewReader(b)
+			w1, err := recvEnvelope(rd)
+			if err != nil {
+				return err
+			}
+			act1 := &handshake.Act1Message{}
+			if err := act1.Unmarshal(w1); err != nil {
+				return err
+			}
+			ra2, err := handshake.AnswerHandshake(act1, p2)
+			if err != nil {
+				return err
+			}
+			w2, _ := ra2.Message().Marshal()
+			var m2 pb.Act2Message
+			if err := proto.Unmarshal(w2, &m2); err != nil {
+				return err
+			}
+			m2.Nonce = xorNonce(m2.Nonce, t2.nx)
+			if t2.hasCx && len(m2.Challenge) == 32 {
+				m2.Challenge[t2.cxPos] ^= t2.cxMask
+			}
+			if t2.p != nil {
+				m2.Protocol = *t2.p
+			}
+			w2, _ = proto.Marshal(&m2)
+			if err := sendEnvelope(b, rsp, w2); err != nil {
+				return err
+			}
+			ra3 := ra2.Next()
+			w3, err := recvEnvelope(rd)
+			if err != nil {
+				return err
+			}
+			act3 := &handshake.Act3Message{}
+			if err := act3.Unmarshal(w3); err != nil {
+				return err
+			}
+			return ra3.FinalizeHandshake(act3)
+		}())
+		if respRes != "ok" {
+			b.Close()
+		}
+		select {
+		case err := <-real:
+			initRes = connClass(err)
+		case <-time.After(10 * time.Second):
+			initRes = "hang"
+		}
+	}
+	tag := "conn" + role
+	switch {
+	case initRes == "ok" && respRes == "ok":
+		tag += "+ok"
+	case respRes == "err:protocol":
+		tag += "+r-proto"
+	case initRes == "err:protocol":
+		tag += "+i-proto"
+	case initRes == "err:challenge":
+		tag += "+i-chal"
+	case respRes == "err:challenge":
+		tag += "+f-chal+conn" + role + "-f-chal"
+	}
+	if t1.used || t2.used || t3.used {
+		tag += "+tamper"
+	}
+	return "init=" + initRes + " resp=" + respRes, tag
 }
 
 // diffTag classifies a tampered challenge that differs from the responder's real one in exactly
